@@ -199,7 +199,7 @@ fn parse_duration_secs(value: &str) -> Result<Duration, String> {
 }
 
 /// Timeout settings for socket operations
-#[cfg_attr(feature = "serde", derive(Serialize, Deserialize))]
+#[cfg_attr(feature = "serde", derive(Serialize))]
 #[cfg_attr(feature = "clap", derive(clap::Args))]
 #[derive(Debug, Clone, Copy, PartialEq, Eq, Hash, PartialOrd, Ord)]
 pub struct TimeoutSettings {
@@ -313,6 +313,30 @@ impl TimeoutSettings {
 impl Default for TimeoutSettings {
     /// Default values are 4 seconds for both read and write, no retries.
     fn default() -> Self { Self::const_default() }
+}
+
+/// Deserialization goes through [TimeoutSettings::new] so the same validation
+/// applies (zero durations are refused).
+#[cfg(feature = "serde")]
+impl<'de> Deserialize<'de> for TimeoutSettings {
+    fn deserialize<D: serde::Deserializer<'de>>(deserializer: D) -> Result<Self, D::Error> {
+        #[derive(Deserialize)]
+        struct Unchecked {
+            connect: Option<Duration>,
+            read: Option<Duration>,
+            write: Option<Duration>,
+            retries: usize,
+        }
+
+        let unchecked = Unchecked::deserialize(deserializer)?;
+        Self::new(
+            unchecked.read,
+            unchecked.write,
+            unchecked.connect,
+            unchecked.retries,
+        )
+        .map_err(serde::de::Error::custom)
+    }
 }
 
 /// Generic extra request settings
